@@ -44,7 +44,7 @@ def run_db(v, pid, mode, n, steps, rule, known_prefix_map=None, extra_args=()):
     with open(cases, "w") as cf:
         for so, p in procs:
             try:
-                o, _ = p.communicate(timeout=3000)
+                o, _ = p.communicate(timeout=7000)
             except subprocess.TimeoutExpired:
                 p.kill()
                 o = b"TIMEOUT"
